@@ -52,10 +52,10 @@ def plan_c27(tier, seed):
         return runs
     for rep in range(4):
         for cfg in range(6):
-            runs.append(run(cfg, "ctrl", seed * 1000 + rep * 10 + cfg, 400000, timeout=3000))
+            runs.append(run(cfg, "ctrl", seed * 1000 + rep * 10 + cfg, 150000, timeout=3000))
     for rep in range(2):
         for cfg in range(6):
-            runs.append(run(cfg, "timeout", seed * 1000 + 100 + rep * 10 + cfg, 600, timeout=3000))
+            runs.append(run(cfg, "timeout", seed * 1000 + 100 + rep * 10 + cfg, 250, timeout=3000))
     return runs
 
 
@@ -75,7 +75,7 @@ def plan_c28(tier, seed):
         for part in range(8):
             runs.append(run(cfg, "enc", seed * 1000 + cfg * 10 + part, 6000, ["--depth=5", "--part=%d" % part, "--parts=8"], timeout=3000))
         for rep in range(2):
-            runs.append(run(cfg, "ctrl", seed * 1000 + 100 + rep * 10 + cfg, 300000, timeout=3000))
+            runs.append(run(cfg, "ctrl", seed * 1000 + 100 + rep * 10 + cfg, 120000, timeout=3000))
     return runs
 
 
@@ -92,9 +92,9 @@ def plan_c29(tier, seed):
         return runs
     for rep in range(3):
         for cfg in range(6):
-            runs.append(run(cfg, "life", seed * 1000 + rep * 10 + cfg, 40000, timeout=3000))
+            runs.append(run(cfg, "life", seed * 1000 + rep * 10 + cfg, 20000, timeout=3000))
     for cfg in range(6):
-        runs.append(run(cfg, "ctrl", seed * 1000 + 100 + cfg, 200000, timeout=3000))
+        runs.append(run(cfg, "ctrl", seed * 1000 + 100 + cfg, 100000, timeout=3000))
     return runs
 
 
@@ -125,7 +125,7 @@ SPECS = [
                             "timeout_scenario:version_ind:unanswered", "timeout_scenario:version_ind:answered",
                             "timeout_scenario:phy_req:unanswered", "timeout_close:conn_param_req", "timeout_close:version_ind",
                             "timeout_not_closed_when_answered"],
-                "counters": {"connections": 200, "conn_events": 20000}},
+                "counters": {"connections": 200, "steps": 50000}},
          assumptions=[ASSUME_RADIO,
                       "FeatureSet[0] = supported AND remote is demanded exactly for the first LL_FEATURE_REQ of a connection; after a repeated "
                       "request, a 4.0 LL_VERSION_IND or LL_UNKNOWN_RSP(LL_CONNECTION_PARAM_REQ) only a subset is demanded",
